@@ -1897,7 +1897,10 @@ fn should_chain_be_broken<'source>(
             _ => last_node_was_access = false,
         }
 
-        if dot_access_count >= ctx.options.chain_break_threshold {
+        // A threshold of 0 disables breaking chains by their number of accesses
+        if ctx.options.chain_break_threshold > 0
+            && dot_access_count >= ctx.options.chain_break_threshold
+        {
             return true;
         }
 
